@@ -15,13 +15,13 @@ import (
 )
 
 type PE struct {
-	Kind   string // lit cls any seq choice star plus opt notp andp ref label action
-	Str    string // lit value / ref name / label / action name
-	Chars  []rune
-	Ranges []rune // pairs
-	Inv    bool
+	Kind    string // lit cls any seq choice star plus opt notp andp ref label action
+	Str     string // lit value / ref name / label / action name
+	Chars   []rune
+	Ranges  []rune // pairs
+	Inv     bool
 	IgnCase bool
-	Kids   []*PE
+	Kids    []*PE
 }
 
 type PRule struct {
